@@ -31,10 +31,10 @@ func (o *oracleRun) note(class string, input interface{}) {
 }
 
 func (o *oracleRun) fail(class, what string, seed int64, input, got, want interface{}) {
-	if len(o.rep.Failures) < 40 {
+	o.rep.Classes["FAIL:"+class]++
+	if o.rep.Classes["FAIL:"+class] <= 3 && len(o.rep.Failures) < 80 {
 		o.rep.Failures = append(o.rep.Failures, failure{Class: class, What: what, Seed: seed, Input: input, Got: got, Want: want})
 	}
-	o.rep.Classes["FAIL:"+class]++
 }
 
 func caseSeeds(seed int64, n int, prop string) []int64 {
